@@ -47,6 +47,11 @@ var markerExt = graphsync.ExtensionData{Name: "sim/marker", Data: basicnode.NewS
 func (s *c09) Build(w *World) {
 	t := w.Tape
 	drawProfile(w)
+	// lock-yield build: in a third of the runs (tape digest) a goroutine may be held just before it hands a message
+	// to the manager's event loop (points before the calls of send in requestmanager/client.go)
+	if w.Tape.Digest()%3 == 0 {
+		w.EnableLockYields("requestmanager/client.go")
+	}
 	s.dag = GenDAG(t, GenCfg{MaxBlocks: 3 + t.Draw(14), MaxDepth: 2 + t.Draw(4), BlockPad: []int{0, 0, 40}[t.Draw(3)], Share: []int{0, 100, 300}[t.Draw(3)]})
 	s.sel, s.selDesc = AllSelector(int64(2+t.Draw(8))), "all"
 	if t.Chance(300) {
